@@ -20,7 +20,7 @@ func main() {
 		fs.Parse(os.Args[2:])
 		var out []map[string]interface{}
 		for _, p := range programs() {
-			if *tier == "quick" && !p.Quick {
+			if (*tier == "quick" && !p.Quick) || p.ObserveOnly {
 				continue
 			}
 			out = append(out, map[string]interface{}{"name": p.Name, "quick": p.Quick, "families": p.Families})
